@@ -254,7 +254,7 @@ def attribute_family(top, out, tier, seed):
 
     server = gatt_server.Server(types.SimpleNamespace(send_l2cap_pdu=lambda *a: None))
     server.add_service(svc)
-    cccd = ch.get_descriptor(gatt.GATT_CLIENT_CHARACTERISTIC_CONFIGURATION_DESCRIPTOR)
+    cccd = next((a for a in server.attributes if a.type == gatt.GATT_CLIENT_CHARACTERISTIC_CONFIGURATION_DESCRIPTOR), None)
     checks['cccd-readable-writeable'] = (cccd is not None and int(cccd.permissions) == int(R_ | W_), f'CCCD created with {getattr(cccd, "permissions", None)!r}')
     out['kind'] = 'lemma'
     out['paths'] = 0
